@@ -185,6 +185,22 @@ CLAIMS = {
              "R-SDIV; comparisons mixing fixed and integer operands are decided under C03.",
         note=PYVC_TRUST + "; " + BPFVC_TRUST + "; binary64 standard model assumed; products and unsigned quotients "
              "uninterpreted in the Stage-A proofs, lemma L-MUL-U links them to exact arithmetic"),
+    "C04": dict(
+        engine="pyvc+bpfvc", category="other", design_ref="DESIGN.md section 4 C04",
+        technique="contract-based deductive verification: the real source of LocalVar/Member/Dict.__set_name__, "
+                  "EBPF.get_stack and LocalVar.fmt_addr against the abstract view of disjoint byte ranges below the "
+                  "frame bottom; frame postconditions on the bytes of generated programs whose statements use "
+                  "temporaries",
+        text="Layout: every declaration takes a slot strictly below all earlier ones, aligned to its size (any number "
+             "and order of declarations, by induction over the stack counter); Dict key/value areas likewise; a "
+             "temporary of get_stack lies below every declared variable of the main program and the bottom is "
+             "restored; a main-program variable's address never depends on the current stack. Frame: ten generated "
+             "programs (hash-map reads and writes with their key temporaries, spilled intermediate values, saved "
+             "registers around helper calls, bit-field and fixed-point stores) change no declared local, array-map "
+             "or hash-map variable other than their destination, for all inputs. Locals of SubPrograms violate the "
+             "property on the real code (two recorded findings); Dict structure members on the program side are "
+             "not covered.",
+        note=PYVC_TRUST + "; " + BPFVC_TRUST + "; bounded in the frame programs; two recorded findings"),
     "C08": dict(
         engine="pyvc+bpfvc", category="other", design_ref="DESIGN.md section 4 C08",
         technique="contract-based deductive verification: the real source of ArrayMap.collect over generated class "
